@@ -26,15 +26,11 @@ const NONCE_LEN_FIELD: usize = 2;
 
 // 2 bytes - encrypted DEK length
 // 2 bytes - nonce length
-// n bytes - encrypted DEK
+// n bytes - encrypted DEK (opaque, provider-specific length: not counted in the minimum)
 // n bytes - nonce
 // n bytes - opaque (AEAD encrypted seed + tag)
-const MIN_PAYLOAD_SIZE: usize = DEK_LEN_FIELD
-    + NONCE_LEN_FIELD
-    + DEK_LEN_BYTES
-    + NONCE_LEN_BYTES
-    + SEED_LENGTH as usize
-    + TAG_LEN_BYTES;
+const MIN_PAYLOAD_SIZE: usize =
+    DEK_LEN_FIELD + NONCE_LEN_FIELD + NONCE_LEN_BYTES + SEED_LENGTH as usize + TAG_LEN_BYTES;
 
 // Convenience function to create zero-filled Vec of given size
 fn vec_zero_filled(len: usize) -> Vec<u8> {
